@@ -557,6 +557,20 @@ def main():
         lines_out.append(f"VIOLATION property={prop} replay={path}" + (" " + tail if tail else ""))
         violations = [f0]
         rc = 1
+    # thorough tier: sanity tests of the assumed std specifications ([A-std]): the std compositions behind the trusted
+    # combinators are executed on pseudo-random data and the assumed postconditions evaluated in plain Rust (sanity/)
+    sanity = None
+    if tier == "thorough":
+        try:
+            env = dict(os.environ, CARGO_TARGET_DIR=os.path.join(BUILD, "sanity-target"), CARGO_NET_OFFLINE="true")
+            p_ = subprocess.run(["cargo", "run", "--offline", "-q", "--release"], cwd=os.path.join(VERIF, "sanity"), env=env,
+                                capture_output=True, text=True, timeout=600)
+            last = (p_.stdout.strip().splitlines() or [""])[-1]
+            sanity = dict(ok=(p_.returncode == 0 and last.startswith("sanity ok")), output=last[:200])
+            if not sanity["ok"]:
+                lines_out.append(f"UNDECIDED property={prop} unit=- reason=an assumed std specification failed its sanity test: {last[:160]}")
+        except BaseException as e:
+            sanity = dict(ok=None, error=str(e)[-200:])
     # thorough tier: the Kani twins of the scalar leaf functions this property owns, as a second, independent back end
     kani_runs = []
     if tier == "thorough":
@@ -615,6 +629,7 @@ def main():
     ev = dict(
         stability=[dict(unit=r["unit"], **r["stability"]) for r in results if r.get("stability")],
         kani=kani_runs,
+        assumption_sanity=sanity,
         property_id=prop, tier=tier, seed=seed, level="proof" if not undecided else "other",
         coverage=dict(
             obligations=n_obl, discharged=n_obl - n_failed,
